@@ -2,7 +2,7 @@
    hstack layout of the splits.  No dependence on generated files. *)
 From Coq Require Import List Arith Bool ZArith Lia Sorted Permutation.
 Import ListNotations.
-Require Import Model.C18_Surgery.
+Require Import Base.Corr Model.C18_Surgery.
 
 (* ------------------------------------------------------------------ generic *)
 
@@ -570,4 +570,281 @@ Proof.
   - apply Forall_forall. intros b Hb. apply in_map_iff in Hb. destruct Hb as [l0 [<- _]]. apply Hrow.
   - rewrite map_length, seq_length. exact Hl.
   - exact Hk.
+Qed.
+
+(* ------------------------------------------------------------------ facet carry-over of to_meshtri (one shared iterator) *)
+Lemma nats_same_eq a b : nats_same a b = true <-> a = b.
+Proof.
+  unfold nats_same. revert b. induction a as [|x a IH]; intros [|y b]; simpl; split; intros H; try reflexivity; try discriminate.
+  - apply andb_true_iff in H. destruct H as [Hl H]. apply andb_true_iff in H. destruct H as [Hxy H].
+    apply Nat.eqb_eq in Hxy. simpl in Hxy. subst y. f_equal. apply IH. apply andb_true_iff. split; [exact Hl | exact H].
+  - inversion H; subst. rewrite Nat.eqb_refl. simpl. rewrite Nat.eqb_refl. simpl.
+    assert (H' : (length b =? length b) && forallb (fun xy => fst xy =? snd xy) (combine b b) = true) by (apply IH; reflexivity).
+    apply andb_true_iff in H'. exact (proj2 H').
+Qed.
+
+Lemma lex_ltb_trans a b c : lex_ltb a b = true -> lex_ltb b c = true -> lex_ltb a c = true.
+Proof.
+  revert b c; induction a as [|x a IH]; intros [|y b] [|z c]; simpl; intros H1 H2; try discriminate; try reflexivity.
+  apply orb_true_iff in H1. apply orb_true_iff in H2. apply orb_true_iff.
+  destruct H1 as [H1|H1], H2 as [H2|H2].
+  - left. apply Nat.ltb_lt in H1. apply Nat.ltb_lt in H2. apply Nat.ltb_lt. lia.
+  - apply andb_true_iff in H2. destruct H2 as [He _]. apply Nat.eqb_eq in He. subst. left. exact H1.
+  - apply andb_true_iff in H1. destruct H1 as [He _]. apply Nat.eqb_eq in He. subst. left. exact H2.
+  - apply andb_true_iff in H1. apply andb_true_iff in H2. destruct H1 as [He1 Hl1], H2 as [He2 Hl2].
+    apply Nat.eqb_eq in He1. apply Nat.eqb_eq in He2. subst. right. rewrite Nat.eqb_refl. simpl. exact (IH _ _ Hl1 Hl2).
+Qed.
+
+(* the shared-iterator scan finds every target when targets and slots are both strictly increasing in lexicographic
+   order and every target occurs among the slots: the j-th result is the slot number of the j-th target *)
+Lemma scan_all_sorted (targets L : mat nat) (s : nat) :
+  StronglySorted lex_lt targets -> StronglySorted lex_lt L -> (forall f, In f targets -> In f L) ->
+  exists idx, scan_all targets (combine (seq s (length L)) L) = Some idx /\ length idx = length targets /\
+              forall j, j < length targets -> s <= nth j idx 0 /\ nth (nth j idx 0 - s) L [] = nth j targets [].
+Proof.
+  revert L s. induction targets as [|f fs IH]; intros L s Ht HL Hin.
+  - exists []. repeat split; simpl in *; lia.
+  - inversion Ht as [|? ? Ht' Hall]; subst. rewrite Forall_forall in Hall.
+    (* find f in L *)
+    revert s. induction L as [|x L IHL]; intros s.
+    + exfalso. exact (Hin f (or_introl eq_refl)).
+    + inversion HL as [|? ? HL' HallL]; subst. rewrite Forall_forall in HallL.
+      simpl. destruct (nats_same f x) eqn:Hs.
+      * apply nats_same_eq in Hs. subst x.
+        assert (Hin' : forall g, In g fs -> In g L).
+        { intros g Hg. destruct (Hin g (or_intror Hg)) as [He|H]; [|exact H].
+          subst g. specialize (Hall f Hg). unfold lex_lt in Hall. rewrite lex_ltb_irrefl in Hall. discriminate. }
+        destruct (IH L (S s) Ht' HL' Hin') as [idx [Hsc [Hlen Hidx]]].
+        exists (s :: idx). rewrite Hsc. split; [reflexivity|]. split; [simpl; lia|].
+        intros [|j] Hj; simpl.
+        -- split; [lia|]. rewrite Nat.sub_diag. reflexivity.
+        -- simpl in Hj. destruct (Hidx j ltac:(lia)) as [Hge He]. split; [lia|].
+           replace (nth j idx 0 - s) with (S (nth j idx 0 - S s)) by lia. exact He.
+      * assert (Hne : f <> x) by (intros He; subst; assert (nats_same x x = true) by (apply nats_same_eq; reflexivity); congruence).
+        assert (HfL : In f L) by (destruct (Hin f (or_introl eq_refl)) as [He|H]; [congruence | exact H]).
+        assert (Hxf : lex_lt x f) by (apply HallL; exact HfL).
+        assert (Hin' : forall g, In g (f :: fs) -> In g L).
+        { intros g [<-|Hg]; [exact HfL|]. destruct (Hin g (or_intror Hg)) as [He|H]; [|exact H].
+          subst g. specialize (Hall x Hg). unfold lex_lt in *. apply lex_ltb_asym in Hall. congruence. }
+        destruct (IHL HL' Hin' (S s)) as [idx [Hsc [Hlen Hidx]]].
+        exists idx. simpl in Hsc. rewrite Hsc. split; [reflexivity|]. split; [exact Hlen|].
+        intros j Hj. destruct (Hidx j Hj) as [Hge He]. split; [lia|].
+        replace (nth j idx 0 - s) with (S (nth j idx 0 - S s)) by lia. exact He.
+Qed.
+
+Lemma insert_nat_perm x l : Permutation (insert_nat x l) (x :: l).
+Proof.
+  induction l as [|y l IH]; simpl; [reflexivity|]. destruct (x <=? y); [reflexivity|]. rewrite IH. apply perm_swap.
+Qed.
+Lemma sort_nat_perm l : Permutation (sort_nat l) l.
+Proof. induction l as [|x l IH]; simpl; [reflexivity|]. rewrite insert_nat_perm. constructor. exact IH. Qed.
+Lemma insert_nat_sorted x l : StronglySorted le l -> StronglySorted le (insert_nat x l).
+Proof.
+  induction l as [|y l IH]; intros Hs; simpl; [repeat constructor|].
+  inversion Hs as [|? ? Hs' Hall]; subst. destruct (Nat.leb_spec x y) as [Hle|Hgt].
+  - constructor; [exact Hs|]. constructor; [exact Hle|]. eapply Forall_impl; [|exact Hall]. intros z Hz. simpl in Hz. lia.
+  - constructor; [apply IH; exact Hs'|].
+    apply (Permutation_Forall (Permutation_sym (insert_nat_perm x l))). constructor; [lia | exact Hall].
+Qed.
+Lemma sort_nat_sorted_lt l : NoDup l -> StronglySorted lt (sort_nat l).
+Proof.
+  intros Hn.
+  assert (Hle : StronglySorted le (sort_nat l)) by (induction l as [|x l IH]; simpl; [constructor | apply insert_nat_sorted, IH; inversion Hn; assumption]).
+  assert (Hnd : NoDup (sort_nat l)) by (eapply Permutation_NoDup; [apply Permutation_sym, sort_nat_perm | exact Hn]).
+  clear Hn. induction Hle as [|a t Hs IH Hall]; [constructor|].
+  inversion Hnd as [|? ? Hna Hnt]; subst. constructor; [apply IH; exact Hnt|].
+  rewrite Forall_forall in *. intros y Hy. specialize (Hall y Hy).
+  destruct (Nat.eq_dec a y) as [->|Hne]; [contradiction | lia].
+Qed.
+
+(* split_spec, facet carry-over of to_meshtri.  OF / NF = facet tables of the quadrilateral mesh and of the triangle
+   mesh (strictly increasing in lexicographic order), b = a named boundary (any order, duplicate-free) all of whose
+   facets are still facets of the triangle mesh.  The scan over ONE shared iterator then succeeds (no StopIteration)
+   and the j-th returned number designates the facet with the same vertex pair as the j-th smallest tagged facet. *)
+Theorem carry_boundary_spec (OF NF : mat nat) (b : list nat) :
+  StronglySorted lex_lt OF -> StronglySorted lex_lt NF -> NoDup b -> Forall (fun k => k < length OF) b ->
+  (forall k, In k b -> In (nth k OF []) NF) ->
+  exists idx, carry_boundary OF NF b = Some idx /\ length idx = length b /\
+              forall j, j < length b -> nth (nth j idx 0) NF [] = nth (nth j (sort_nat b) 0) OF [].
+Proof.
+  intros HOF HNF Hnd Hb Hin. unfold carry_boundary.
+  assert (Hp := sort_nat_perm b).
+  assert (Hs : StronglySorted lex_lt (map (fun k => nth k OF []) (sort_nat b))).
+  { apply sorted_gather; [exact HOF | apply sort_nat_sorted_lt; exact Hnd|].
+    apply (Permutation_Forall (Permutation_sym Hp)). exact Hb. }
+  assert (Hmem : forall f, In f (map (fun k => nth k OF []) (sort_nat b)) -> In f NF).
+  { intros f Hf. apply in_map_iff in Hf. destruct Hf as [k [<- Hk]]. apply Hin. eapply Permutation_in; [exact Hp | exact Hk]. }
+  destruct (scan_all_sorted _ NF 0 Hs HNF Hmem) as [idx [Hsc [Hlen Hidx]]].
+  exists idx. split; [exact Hsc|]. rewrite map_length in Hlen, Hidx.
+  rewrite (Permutation_length Hp) in Hlen, Hidx. split; [exact Hlen|].
+  intros j Hj. destruct (Hidx j Hj) as [_ He]. rewrite Nat.sub_0_r in He. rewrite He.
+  apply (map_nth_in (fun k => nth k OF []) (sort_nat b) j 0 []). rewrite (Permutation_length Hp). exact Hj.
+Qed.
+
+(* ------------------------------------------------------------------ join / remove_duplicate_nodes *)
+Definition lexz_lt (a b : key) : Prop := lexz_ltb a b = true.
+
+Lemma lexz_irrefl a : lexz_ltb a a = false.
+Proof. induction a as [|x a IH]; simpl; [reflexivity|]. rewrite Z.ltb_irrefl, Z.eqb_refl, IH. reflexivity. Qed.
+
+Lemma lexz_trans a b c : lexz_ltb a b = true -> lexz_ltb b c = true -> lexz_ltb a c = true.
+Proof.
+  revert b c; induction a as [|x a IH]; intros [|y b] [|z c]; simpl; intros H1 H2; try discriminate; try reflexivity.
+  apply orb_true_iff in H1. apply orb_true_iff in H2. apply orb_true_iff.
+  destruct H1 as [H1|H1], H2 as [H2|H2].
+  - left. apply Z.ltb_lt in H1. apply Z.ltb_lt in H2. apply Z.ltb_lt. lia.
+  - apply andb_true_iff in H2. destruct H2 as [He _]. apply Z.eqb_eq in He. subst. left. exact H1.
+  - apply andb_true_iff in H1. destruct H1 as [He _]. apply Z.eqb_eq in He. subst. left. exact H2.
+  - apply andb_true_iff in H1. apply andb_true_iff in H2. destruct H1 as [He1 Hl1], H2 as [He2 Hl2].
+    apply Z.eqb_eq in He1. apply Z.eqb_eq in He2. subst. right. rewrite Z.eqb_refl. simpl. exact (IH _ _ Hl1 Hl2).
+Qed.
+
+Lemma lexz_asym a b : lexz_ltb a b = true -> lexz_ltb b a = false.
+Proof.
+  intros H. destruct (lexz_ltb b a) eqn:Hb; [|reflexivity].
+  assert (Hc := lexz_trans _ _ _ H Hb). rewrite lexz_irrefl in Hc. discriminate.
+Qed.
+
+Lemma lexz_total a b : lexz_ltb a b = false -> zs_eqb a b = false -> lexz_ltb b a = true.
+Proof.
+  revert b; induction a as [|x a IH]; intros [|y b]; simpl; intros H1 H2; try discriminate; try reflexivity.
+  apply orb_false_iff in H1. destruct H1 as [Hlt H1]. apply Z.ltb_ge in Hlt.
+  destruct (Z.eqb_spec x y) as [->|Hne].
+  - simpl in H1. rewrite Z.ltb_irrefl, Z.eqb_refl. simpl. apply IH; [exact H1|].
+    unfold zs_eqb in *. simpl in H2. rewrite Z.eqb_refl in H2. exact H2.
+  - apply orb_true_iff. left. apply Z.ltb_lt. lia.
+Qed.
+
+Lemma zs_eqb_refl a : zs_eqb a a = true.
+Proof. apply zs_eqb_eq. reflexivity. Qed.
+
+Lemma insert_key_In k l y : In y (insert_key k l) <-> y = k \/ In y l.
+Proof.
+  induction l as [|x l IH]; simpl; [intuition|].
+  destruct (lexz_ltb k x); simpl; [intuition|].
+  destruct (zs_eqb k x) eqn:He.
+  - apply zs_eqb_eq in He. subst. simpl. intuition.
+  - simpl. rewrite IH. intuition.
+Qed.
+
+Lemma insert_key_sorted k l : StronglySorted lexz_lt l -> StronglySorted lexz_lt (insert_key k l).
+Proof.
+  induction l as [|x l IH]; intros Hs; simpl; [repeat constructor|].
+  inversion Hs as [|? ? Hs' Hall]; subst.
+  destruct (lexz_ltb k x) eqn:Hlt.
+  - constructor; [exact Hs|]. constructor; [exact Hlt|].
+    eapply Forall_impl; [|exact Hall]. intros z Hz. exact (lexz_trans _ _ _ Hlt Hz).
+  - destruct (zs_eqb k x) eqn:He; [exact Hs|].
+    constructor; [apply IH; exact Hs'|].
+    apply Forall_forall. intros y Hy. apply insert_key_In in Hy. destruct Hy as [->|Hy].
+    + exact (lexz_total _ _ Hlt He).
+    + rewrite Forall_forall in Hall. exact (Hall y Hy).
+Qed.
+
+Lemma unique_keys_sorted ks : StronglySorted lexz_lt (unique_keys ks).
+Proof. induction ks as [|k ks IH]; simpl; [constructor | apply insert_key_sorted, IH]. Qed.
+
+Lemma unique_keys_In ks y : In y (unique_keys ks) <-> In y ks.
+Proof. induction ks as [|k ks IH]; simpl; [tauto|]. rewrite insert_key_In, IH. intuition. Qed.
+
+Lemma lexz_sorted_NoDup l : StronglySorted lexz_lt l -> NoDup l.
+Proof.
+  induction 1 as [|a l Hs IH Hall]; constructor; [|exact IH].
+  intros Hin. rewrite Forall_forall in Hall. specialize (Hall a Hin). unfold lexz_lt in Hall.
+  rewrite lexz_irrefl in Hall. discriminate.
+Qed.
+
+Lemma index_key_hit k l : In k l -> index_key k l < length l /\ nth (index_key k l) l [] = k.
+Proof.
+  induction l as [|x l IH]; intros Hin; [contradiction|]. simpl.
+  destruct (zs_eqb k x) eqn:He.
+  - apply zs_eqb_eq in He. subst. simpl. split; [lia | reflexivity].
+  - destruct Hin as [->|Hin]; [rewrite zs_eqb_refl in He; discriminate|].
+    destruct (IH Hin) as [H1 H2]. simpl. split; [lia | exact H2].
+Qed.
+
+(* p[:, ixa] is the strictly increasing list of the distinct coordinate tuples *)
+Lemma dedupe_p_eq p : dedupe_p p = unique_keys p.
+Proof.
+  unfold dedupe_p, gather. rewrite map_map.
+  transitivity (map (fun k : key => k) (unique_keys p)); [|apply map_id].
+  apply map_ext_in. intros k Hk. apply (proj1 (unique_keys_In p k)) in Hk. apply index_key_hit. exact Hk.
+Qed.
+
+(* join_spec / remove_duplicate_nodes: (1) the new point table has pairwise distinct columns and exactly the old
+   coordinate tuples; (2) every vertex keeps its coordinates; (3) two vertices are merged iff coordinate-equal *)
+Theorem dedupe_spec (p : list key) :
+  NoDup (dedupe_p p) /\ (forall k, In k (dedupe_p p) <-> In k p) /\
+  (forall v, v < length p -> nth v (dedupe_inverse p) 0 < length (dedupe_p p) /\
+                             nth (nth v (dedupe_inverse p) 0) (dedupe_p p) [] = nth v p []) /\
+  (forall v w, v < length p -> w < length p ->
+     (nth v (dedupe_inverse p) 0 = nth w (dedupe_inverse p) 0 <-> nth v p [] = nth w p [])).
+Proof.
+  rewrite dedupe_p_eq.
+  assert (Hinv : forall v, v < length p -> nth v (dedupe_inverse p) 0 = index_key (nth v p []) (unique_keys p)).
+  { intros v Hv. unfold dedupe_inverse. apply (map_nth_in (fun k => index_key k (unique_keys p)) p v [] 0). exact Hv. }
+  assert (Hhit : forall v, v < length p -> index_key (nth v p []) (unique_keys p) < length (unique_keys p) /\
+                                         nth (index_key (nth v p []) (unique_keys p)) (unique_keys p) [] = nth v p []).
+  { intros v Hv. apply index_key_hit. apply unique_keys_In. apply nth_In. exact Hv. }
+  split; [apply lexz_sorted_NoDup, unique_keys_sorted|].
+  split; [apply unique_keys_In|].
+  split.
+  - intros v Hv. rewrite (Hinv v Hv). apply Hhit. exact Hv.
+  - intros v w Hv Hw. rewrite (Hinv v Hv), (Hinv w Hw). split.
+    + intros He. destruct (Hhit v Hv) as [_ H1]. destruct (Hhit w Hw) as [_ H2]. rewrite <- H1, <- H2, He. reflexivity.
+    + intros He. rewrite He. reflexivity.
+Qed.
+
+(* cells keep their vertex coordinates *)
+Theorem dedupe_cells (p : list key) (t : mat nat) r c :
+  r < length t -> c < length (nth r t []) -> nth c (nth r t []) 0 < length p ->
+  nth (nth c (nth r (dedupe_t p t) []) 0) (dedupe_p p) [] = nth (nth c (nth r t []) 0) p [].
+Proof.
+  intros Hr Hc Hv. unfold dedupe_t.
+  rewrite (map_nth_in _ t r [] []) by exact Hr.
+  rewrite (map_nth_in _ (nth r t []) c 0 0) by exact Hc.
+  apply (proj1 (proj2 (proj2 (dedupe_spec p)))). exact Hv.
+Qed.
+
+Lemma hstack2_nth t1 t2 r : r < length t1 -> r < length t2 ->
+  nth r (hstack2 t1 t2) [] = nth r t1 [] ++ nth r t2 [].
+Proof.
+  revert t2 r; induction t1 as [|r1 t1 IH]; intros [|r2 t2] r H1 H2; simpl in *; try lia.
+  destruct r as [|r]; [reflexivity | apply IH; lia].
+Qed.
+Lemma hstack2_length t1 t2 : length (hstack2 t1 t2) = Nat.min (length t1) (length t2).
+Proof. revert t2; induction t1 as [|r1 t1 IH]; intros [|r2 t2]; simpl; try reflexivity. now rewrite IH. Qed.
+
+(* join_spec: in m1 + m2 the cells of m1 come first and keep their vertex coordinates, the cells of m2 follow
+   and keep theirs (vertex numbers shifted by |p1| before the merge) *)
+Theorem join_cells (p1 p2 : list key) (t1 t2 : mat nat) (nt1 : nat) r c :
+  length t1 = length t2 -> r < length t1 -> Forall (fun row => length row = nt1) t1 ->
+  (c < nt1 -> nth c (nth r t1 []) 0 < length p1 ->
+     nth (nth c (nth r (join_t p1 p2 t1 t2) []) 0) (join_p p1 p2) [] = nth (nth c (nth r t1 []) 0) p1 []) /\
+  (forall c2, c = nt1 + c2 -> c2 < length (nth r t2 []) -> nth c2 (nth r t2 []) 0 < length p2 ->
+     nth (nth c (nth r (join_t p1 p2 t1 t2) []) 0) (join_p p1 p2) [] = nth (nth c2 (nth r t2 []) 0) p2 []).
+Proof.
+  intros Hlen Hr Hrows. unfold join_t, join_p.
+  set (t2s := map (map (fun v => v + length p1)) t2).
+  assert (Hr2 : r < length t2s) by (unfold t2s; rewrite map_length; lia).
+  assert (Hrow : nth r (hstack2 t1 t2s) [] = nth r t1 [] ++ nth r t2s []) by (apply hstack2_nth; assumption).
+  assert (Hl1 : length (nth r t1 []) = nt1) by (rewrite Forall_forall in Hrows; apply Hrows, nth_In; exact Hr).
+  assert (Hrs : nth r t2s [] = map (fun v => v + length p1) (nth r t2 [])).
+  { unfold t2s. apply (map_nth_in (map (fun v => v + length p1)) t2 r [] []). lia. }
+  assert (HrH : r < length (hstack2 t1 t2s)) by (rewrite hstack2_length; lia).
+  split.
+  - intros Hc Hv. rewrite dedupe_cells; rewrite ?Hrow.
+    + rewrite (app_nth1 (nth r t1 []) (nth r t2s []) 0) by lia. apply app_nth1. exact Hv.
+    + exact HrH.
+    + rewrite app_length. lia.
+    + rewrite (app_nth1 (nth r t1 []) (nth r t2s []) 0) by lia. rewrite app_length. lia.
+  - intros c2 -> Hc2 Hv.
+    assert (Hn : nth (nt1 + c2) (nth r t1 [] ++ nth r t2s []) 0 = nth c2 (nth r t2 []) 0 + length p1).
+    { rewrite (app_nth2 (nth r t1 []) (nth r t2s []) 0) by lia. rewrite Hl1. replace (nt1 + c2 - nt1) with c2 by lia. rewrite Hrs.
+      apply (map_nth_in (fun v => v + length p1) (nth r t2 []) c2 0 0). exact Hc2. }
+    rewrite dedupe_cells; rewrite ?Hrow.
+    + rewrite Hn. rewrite (app_nth2 p1 p2 []) by lia. f_equal. lia.
+    + exact HrH.
+    + rewrite app_length, Hl1, Hrs, map_length. lia.
+    + rewrite Hn, app_length. lia.
 Qed.
